@@ -12,12 +12,12 @@ sys.path.insert(0, VERIF)
 
 TIERS = {
     # property: tier: (runs, wall budget seconds, per-run timeout)
-    'C07': {'quick': (3000, 200, 90), 'thorough': (60000, 1700, 120)},
-    'C12': {'quick': (2500, 200, 90), 'thorough': (50000, 1700, 120)},
-    'C13': {'quick': (2000, 200, 90), 'thorough': (40000, 1700, 120)},
-    'C14': {'quick': (2500, 200, 90), 'thorough': (50000, 1700, 120)},
-    'C15': {'quick': (2500, 200, 90), 'thorough': (50000, 1700, 120)},
-    'C11': {'quick': (2000, 200, 90), 'thorough': (40000, 1700, 120)},
+    'C07': {'quick': (8000, 200, 90), 'thorough': (120000, 1700, 120)},
+    'C12': {'quick': (6000, 200, 90), 'thorough': (90000, 1700, 120)},
+    'C13': {'quick': (6000, 200, 90), 'thorough': (90000, 1700, 120)},
+    'C14': {'quick': (8000, 200, 90), 'thorough': (120000, 1700, 120)},
+    'C15': {'quick': (8000, 200, 90), 'thorough': (120000, 1700, 120)},
+    'C11': {'quick': (5000, 200, 90), 'thorough': (70000, 1700, 120)},
     'C01': {'quick': (160, 200, 75), 'thorough': (2500, 1750, 600)},
     'C02': {'quick': (160, 200, 75), 'thorough': (2500, 1750, 600)},
     'C03': {'quick': (140, 200, 75), 'thorough': (1500, 1750, 600)},
@@ -92,7 +92,8 @@ def cmd_check(a) -> int:
                                              if ln.startswith('KNOWN')]
     ev['coverage']['inconclusive'] = {
         k: v for k, v in vd['by_status'].items() if k != 'ok'}
-    report.write_evidence(prop, ev)
+    if not os.environ.get('DST_NO_EVIDENCE'):
+        report.write_evidence(prop, ev)
     for ln in lines:
         print(ln)
     print(f'[{prop}] {vd["n"]} runs ({vd["ok"]} conclusive, '
